@@ -521,6 +521,7 @@ func (f *FnCtx) runTop() {
 	fr.sweepLoopClosures(st)
 	fr.sweepDeadParamStores(st)
 	fr.sweepNoWait(st)
+	fr.sweepFramedOutput(st)
 	ret := fr.run(st)
 	if ret == nil {
 		return // never returns normally
@@ -2942,6 +2943,61 @@ func (fr *frame) sweepNoWait(st *bstate) {
 					f.oblige(st, fmt.Sprintf("%s#an-attempt-does-not-wait-on-its-own:%s", fnShortName(fr.fn), callee.Name()), "safety", f.sweepTags, "false",
 						"the attempt function calls "+callee.String()+": waits between attempts belong to the retry executor", posStr(f.e.fset, in.Pos()))
 				}
+			}
+		}
+	}
+}
+
+// sweep kind "framedoutput": the stdio client's frames go out through its JSON encoder only (one Encode call per
+// message, terminated by the encoder): nothing writes to the field `stdin` directly - no Write / WriteString method,
+// no io.WriteString, io.Copy or fmt.Fprint* on it.  Two raw writes for one message would let another writer's frame
+// land in between.  Structural.
+func (fr *frame) sweepFramedOutput(st *bstate) {
+	f := fr.f
+	if !f.sweep["framedoutput"] || f.dry {
+		return
+	}
+	isStdin := func(v ssa.Value) bool {
+		for i := 0; i < 4; i++ {
+			switch x := v.(type) {
+			case *ssa.MakeInterface:
+				v = x.X
+			case *ssa.ChangeInterface:
+				v = x.X
+			case *ssa.UnOp:
+				if fa, ok := x.X.(*ssa.FieldAddr); ok {
+					if pt, ok := fa.X.Type().Underlying().(*types.Pointer); ok {
+						if stt, ok := pt.Elem().Underlying().(*types.Struct); ok {
+							return stt.Field(fa.Field).Name() == "stdin"
+						}
+					}
+				}
+				return false
+			default:
+				return false
+			}
+		}
+		return false
+	}
+	for _, b := range fr.fn.Blocks {
+		for _, in := range b.Instrs {
+			c, ok := in.(ssa.CallInstruction)
+			if !ok {
+				continue
+			}
+			cc := c.Common()
+			bad := ""
+			if cc.IsInvoke() && isStdin(cc.Value) && (cc.Method.Name() == "Write" || cc.Method.Name() == "WriteString") {
+				bad = cc.Method.Name()
+			} else if callee := cc.StaticCallee(); callee != nil && len(cc.Args) > 0 && isStdin(cc.Args[0]) {
+				switch callee.String() {
+				case "io.WriteString", "io.Copy", "fmt.Fprint", "fmt.Fprintf", "fmt.Fprintln":
+					bad = callee.String()
+				}
+			}
+			if bad != "" {
+				f.oblige(st, fmt.Sprintf("%s#frames-go-out-through-the-encoder:%s", fnShortName(fr.fn), bad), "safety", f.sweepTags, "false",
+					"the process's standard input is written to directly ("+bad+"): frames are written by the encoder, one Encode call per message", posStr(f.e.fset, in.Pos()))
 			}
 		}
 	}
